@@ -31,7 +31,7 @@ func isFdSourceCall(info *types.Info, call *ast.CallExpr) string {
 	if f == nil || f.Pkg() == nil {
 		return ""
 	}
-	if f.Pkg().Path() == core.ModPath+"/pkg/socket" && (f.Name() == "Accept" || f.Name() == "Dup") {
+	if f.Pkg().Path() == core.ModPath+"/pkg/socket" && (nameOf(f) == "Accept" || nameOf(f) == "Dup") {
 		return "socket." + f.Name()
 	}
 	return ""
@@ -147,7 +147,7 @@ func analyseFd(c *core.Ctx, v *vocab, f *fn, g *flow.Graph, src fdSource) []fdIs
 	isV := func(e ast.Expr) bool { return flow.ObjOf(info, e) == src.v }
 	isCtor := func(call *ast.CallExpr) bool {
 		cf := flow.CalleeFunc(info, call)
-		return cf != nil && v.byObj[cf] != nil && (cf.Name() == "newStreamConn" || cf.Name() == "newUDPConn")
+		return cf != nil && v.byObj[cf] != nil && (nameOf(cf) == "newStreamConn" || nameOf(cf) == "newUDPConn")
 	}
 
 	// deferred closers: defer func(){ if <guard> { unix.Close(v) } }()
@@ -341,6 +341,10 @@ func connOnlyFromCtorOf(info *types.Info, body ast.Node, o *types.Var, fdVar *ty
 			n++
 			if len(as.Rhs) != len(as.Lhs) {
 				ok = false
+				continue
+			}
+			if flow.IsNil(info, as.Rhs[i]) {
+				n-- // o = nil: still "not built"
 				continue
 			}
 			call, isCall := ast.Unparen(as.Rhs[i]).(*ast.CallExpr)
